@@ -119,6 +119,13 @@ CLAIMS = {
        "Jacobian (Matrix.det_diagonal); periodic wrapping lands in [lo,hi), is congruent modulo the period, unique and idempotent; fit returns exactly the forward image. All classes x 3 namespaces x 2 widths are run against the model.",
   note=TB + "Over the reals; ProbitOK (erf/erfinv identities and derivative) is a hypothesis about scipy, proved satisfiable; floating-point `%` rounding at period boundaries is a known finding; the driver's erf/erfinv are numerical.",
   technique="Lean 4 proof (calculus in Mathlib) + differential correspondence on forward/inverse/fit + finite-difference and round-trip oracle"),
+ "C15": dict(
+  text="The domain is a finite table (3 classes x 3 x 3 namespaces x 2 widths x 9 dtype spellings x 3 methods = 1458 requests, 750 accepted and well-formed): the theorem conversion_total_and_faithful is proved by "
+       "evaluating the WHOLE table in the kernel (decide +kernel) and lifting by a membership lemma: every conversion succeeds, lands in the requested namespace, keeps the width (or takes the requested one) and keeps all optional "
+       "fields; the dtype helpers are total and never produce a foreign dtype object; the pinned conversions are proved to raise / widen (repaired by fix: commits). The same complete table is executed on the real classes on every run, "
+       "plus sampler populations (build / restore / return) over namespace x width, the xp= output option and a real zuko proposal consumed in three namespaces.",
+  note=TB + "The library rules (asarray rejects a foreign dtype object; numpy and jax share dtype objects; default widths) are parameters of the model validated by the exhaustive run. jax with x64 enabled as in the repository's tests.",
+  technique="Lean 4 proof by kernel evaluation of the complete finite table + exhaustive differential correspondence on the real classes"),
 }
 NOT_YET = "check not built yet (work in progress; see DESIGN.md section 10)"
 
